@@ -45,8 +45,7 @@ type healCase struct {
 	Replicas  int   `json:"replicas"`
 	Strategy  int   `json:"read_strategy,omitempty"` // 0 MASTER, 1 REPLICA, 2 BOTH
 	// NoPeriodic: the periodic slot refresh runs at its production rate (2 min: never during a case), so a layout change can only
-	// be learnt through refreshes that a redirection triggers - what the statement promises. Fail-overs (the dead master cannot
-	// redirect anybody) are skipped in these cases.
+	// be learnt through refreshes that a redirection - or, after a fail-over, a failed connect to the dead master - triggers.
 	NoPeriodic bool `json:"no_periodic_refresh,omitempty"`
 	StartDown []int `json:"start_down"`
 	Ops       []hop `json:"ops"`
@@ -341,7 +340,7 @@ func checkHeal(c healCase) (inf healInfo, v *verdict) {
 			}
 			time.Sleep(allowance)
 		case "failover":
-			if len(h.down) > 0 || len(w.Replicas(node)) == 0 || c.NoPeriodic {
+			if len(h.down) > 0 || len(w.Replicas(node)) == 0 {
 				continue
 			}
 			nm := w.Failover(node)
